@@ -266,8 +266,25 @@ def dequantise_picture(st, tp, slices):
     if I.using_dc_prediction(st):
         o = "LL" if st["dwt_depth_ho"] == 0 else "L"
         for c in COMPS:
-            I.tds.dc_prediction(arrays[c][0][o])
+            spec_dc_prediction(arrays[c][0][o])
     return arrays
+
+
+def spec_dc_prediction(band):
+    """(13.4) written from the standard, independent of the code base: prediction = rounded mean of the left,
+    upper-left and upper neighbours (or the single available neighbour, or 0), raster order, in place."""
+    for y in range(len(band)):
+        for x in range(len(band[y])):
+            if x > 0 and y > 0:
+                s3 = band[y][x - 1] + band[y - 1][x - 1] + band[y - 1][x]
+                pred = (s3 + 1) // 3
+            elif x > 0:
+                pred = band[0][x - 1]
+            elif y > 0:
+                pred = band[y - 1][0]
+            else:
+                pred = 0
+            band[y][x] += pred
 
 
 def compare_stream(data):
@@ -499,7 +516,10 @@ def gen_streams(ctx, n):
             npics = 2 if kw["fields"] else rng.choice([1, 1, 2])
             pics = [C.random_picture(cf, rng) for _ in range(npics)]
             pat = rng.choice(patterns)
-            seq = I.encoder.make_sequence(cf, pics, *pat)
+            kwargs = {}
+            if kw["profile"] == "hq" and rng.random() < 0.4:
+                kwargs["minimum_slice_size_scaler"] = rng.choice([2, 3, 5])
+            seq = I.encoder.make_sequence(cf, pics, *pat, **kwargs)
             variant = rng.choice(["plain", "inplace", "inplace", "desc"]) if kw["profile"] == "hq" else rng.choice(["plain", "inplace", "inplace"])
             if variant == "desc":
                 seq = repack_description(rng, seq, cf)
